@@ -2,8 +2,77 @@
 
 package crl
 
+//@ global workDirsInUse varinvariant[C20] workdirs_map_exists: workDirsInUse != nil
+
+//@ type globals
+//@   guarded_by workDirInUseMutex: workDirsInUse
+//@   guarded_by crlUpdateMutex: lastCrlUpdateFinishTime
+
+//@ type CRLRevocationChecker
+//@   immutable: crlRepository, crlConfig, logger, crlUpdateTicker, crlUpdateStop
+
+//@ spec func checkerOK(c ref) bool = c != nil && c.crlRepository != nil && repoOK(c.crlRepository) && c.crlConfig != nil && c.crlConfig.CDPConfig != nil && c.logger != nil && certsNonNil(c.crlConfig.TrustedSignatureCerts)
+
 //@ func CRLRevocationChecker.IsRevoked
-//@   props C01 C10
-//@   requires c != nil && clientCertificate != nil
-//@   assigns X.crlrepo, X.fs, X.net
+//@   props C01 C10 C03
+//@   requires checkerOK(c) && clientCertificate != nil && norwlocks() && chainsNonNil(verifiedChains)
+//@   assigns L.held, crlrepository.Entry.CRLStore, crlrepository.Entry.Loaded, crlrepository.Entry.LastUpdateSignatureVerifyFailed, crlrepository.Entry.LastUpdateSignature, crlrepository.Entry.Chains, H.crlrepository.Repository.crlRepository, M.map[string]*crlrepository.Entry, crlstore.MapStore.Map, M.map[string][]uint8, crlstore.LevelDbStore.Db, H.crlloader.MultiSchemesCRLLoader, H.crlloader.URLLoader, H.crlloader.FileLoader, X.ldbhas, X.fs, X.net, X.retry, X.stream, X.hacc, X.hkind, E.uint8, E.any, E.string, fresh:E.*core.CertificateChainEntry, fresh:E.core.CertificateChain, fresh:E.core.CertificateChainEntry
 //@   ensures err == nil ==> ret != nil
+//@   ensures[C01,C10,C03] verdict_is_the_repositorys: called(Repository.IsRevoked#1) && ret == res(Repository.IsRevoked#1, 0) && err == res(Repository.IsRevoked#1, 1)
+//@   ensures[C10,C03] cdp_locations_reach_the_strict_gate: len(clientCertificate.CRLDistributionPoints) > 0 ==> arg(Repository.IsRevoked#1, 2) != nil && arg(Repository.IsRevoked#1, 2).CRLDistributionPoints == clientCertificate.CRLDistributionPoints
+//@   ensures[C10] no_cdp_no_gate: len(clientCertificate.CRLDistributionPoints) == 0 ==> arg(Repository.IsRevoked#1, 2) == nil
+//@   ensures[C01] the_presented_certificate_is_checked: arg(Repository.IsRevoked#1, 1) == clientCertificate
+
+//@ func CRLRevocationChecker.Provision
+//@   props C15 C19 C20 C03
+//@   requires c != nil && crlConfig != nil && crlConfig.CDPConfig != nil && logger != nil && nolocks() && certsNonNil(crlConfig.TrustedSignatureCerts)
+//@   assigns *
+//@   ensures[C03,C15] err == nil ==> checkerOK(c)
+
+//@ func CRLRevocationChecker.Cleanup
+//@   props C20 C13
+//@   requires c != nil && nolocks() && (c.crlRepository != nil ==> repoOK(c.crlRepository))
+//@   assigns *
+//@   ensures[C20] stop_channel_closed: old(c.crlUpdateStop) != nil ==> called(close#1)
+
+//@ func CRLRevocationChecker.addCrlUrlsFromConfig
+//@   props C15 C19
+//@   requires checkerOK(c) && norwlocks() && chains != nil && chainsOK(chains)
+//@   assigns *
+//@   ensures checkerOK(c) && norwlocks() && chainsOK(chains)
+//@   loop 1 invariant checkerOK(c) && norwlocks() && chainsOK(chains)
+//@ func CRLRevocationChecker.addCrlFilesFromConfig
+//@   props C15 C19
+//@   requires checkerOK(c) && norwlocks() && chains != nil && chainsOK(chains)
+//@   assigns *
+//@   ensures checkerOK(c) && norwlocks() && chainsOK(chains)
+//@   loop 1 invariant checkerOK(c) && norwlocks() && chainsOK(chains)
+
+//@ func CRLRevocationChecker.initCRLUpdateTicker
+//@   props C15 C19 C07
+//@   requires checkerOK(c)
+//@   assigns *c
+//@   ensures checkerOK(c)
+
+//@ func CRLRevocationChecker.updateCRLs
+//@   props C15 C13 C07
+//@   requires checkerOK(c) && norwlocks() && unheld(&crlUpdateMutex)
+//@   noglobals
+//@   assigns *
+
+//@ func CRLRevocationChecker.updateWasRecentlyFinished
+//@   props C15
+//@   requires c != nil && c.crlConfig != nil
+//@   noglobals
+//@   pure
+
+//@ func RegisterCRLWorkDirUsage
+//@   props C20 C13
+//@   requires crlConfig != nil && nolocks()
+//@   assigns L.held, M.map[string]int, G.crl.workDirsInUse
+//@   ensures nolocks()
+//@ func DeregisterCRLWorkDirUsage
+//@   props C20 C13
+//@   requires crlConfig != nil && nolocks()
+//@   assigns L.held, M.map[string]int, G.crl.workDirsInUse
+//@   ensures nolocks()
